@@ -207,4 +207,28 @@ Forward(sh) ==
    answer  |-> [i \in 1..Len(sh.params) |-> AnswerView(sh.params[i], i)],
    after   |-> [i \in 1..Len(sh.params) |-> IF Writes(sh.params[i]) THEN After(sh.params[i], i) ELSE "-"],
    ret     |-> RetView(sh.ret)]
+
+(***************************************************************************)
+(* C16: unmock_with.  A trait with n methods of one signature              *)
+(* (recv, a: u8, b: &str) -> u32, an optional provided associated function *)
+(* without receiver declared first (it is not mockable but still occupies  *)
+(* a slot of the list), and per method an entry of the list:               *)
+(*    "none"  `_`            no real function                              *)
+(*    "path"  `real_i`       called as real_i(mock, a, b)                  *)
+(*    "expl"  `realx_i(b, a)` called with the listed expressions           *)
+(* The call under test targets method `target`, in a partial mock (fall    *)
+(* through) or in a strict mock with an applies_unmocked() clause.         *)
+(***************************************************************************)
+EntryKinds == {"none", "path", "expl"}
+UnmockExpected(sh) ==
+  LET e == sh.entries[sh.target] IN
+  CASE e = "none" -> [k |-> "panic", class |-> "CannotUnmock", who |-> "", args |-> <<>>, ret |-> 0]
+    [] e = "path" -> [k |-> "ret", class |-> "", who |-> "real_" \o ToString(sh.target), args |-> <<"5", "&s">>, ret |-> 1000 + sh.target]
+    [] OTHER      -> [k |-> "ret", class |-> "", who |-> "realx_" \o ToString(sh.target), args |-> <<"&s", "5">>, ret |-> 2000 + sh.target]
+UnmockShapes(NM, Rs) ==
+  { sh \in [recv : Rs, n : NM, target : 1..3, entries : UNION { [1..k -> EntryKinds] : k \in NM }, skipped : BOOLEAN,
+            async : BOOLEAN, mode : {"partial", "clause"}, nested : BOOLEAN] :
+      /\ Len(sh.entries) = sh.n /\ sh.target <= sh.n
+      /\ (sh.nested => sh.entries[sh.target] = "path")
+      /\ (sh.async => sh.recv \in {"ref", "own"}) }
 =============================================================================
